@@ -150,6 +150,7 @@ type unaryRpcArgs struct {
 type streamHandler struct {
 	ch     chan *goatorepo.Rpc
 	done   chan struct{}
+	ctx    context.Context
 	cancel context.CancelFunc
 }
 
@@ -433,6 +434,10 @@ func (h *handler) processStreamingRpc(
 		} else {
 			select {
 			case handler.ch <- rpc:
+			case <-handler.ctx.Done():
+				// The stream's handler has returned or been cancelled and will
+				// never read this; drop it rather than block (while holding
+				// h.mu, which the stream needs to unregister itself).
 			case <-clientCtx.Done():
 				return clientCtx.Err()
 			case <-h.ctx.Done():
@@ -473,6 +478,7 @@ func (h *handler) processStreamingRpc(
 	h.streams[streamId] = streamHandler{
 		ch:     make(chan *goatorepo.Rpc, 1),
 		done:   make(chan struct{}, 1),
+		ctx:    ctx,
 		cancel: cancel,
 	}
 
